@@ -14,10 +14,13 @@
      extends: (extending format hf, layout format pf) in the pairs the parser accepts x pl x bodies
               over ItemsNoK; sub-directory layouts for bodies of <= 1 item (content placement); a layout that
               redeclares the macro (clash: both forms must fail to build)
+     every kind: bodies with one N item (render of a file that renders a third file: nesting depth 3 below the
+              main file, formats alternating) or one Y / Z item (a partial in another directory shared by two files /
+              referenced twice by one file, followed by a relative reference), alone or after a text item
      calib  : one text file per text atom (checks the atom table of Compose.tla)
    plus NSample seeded bodies of MaxLen + 1 items (render kind). *)
 EXTENDS Compose, Json, FiniteSets
-CONSTANTS MaxLen, NSample, Seed, Mode
+CONSTANTS MaxLen, NSample, Seed, Mode, Full
 
 Dim(kind, hf, pl, pf, lay, imp, clash) ==
   [kind |-> kind, hf |-> hf, pl |-> pl, pf |-> pf, lay |-> lay, body |-> <<>>, imp |-> imp, clash |-> clash]
@@ -36,7 +39,17 @@ Ok(d) == /\ PlOk(d)
          /\ d.clash => d.lay = 0
          /\ Secondary(d) => d.pl = "text"        \* paths and import forms do not depend on the placement
 MaxLenOf(d) == IF d.clash THEN 0 ELSE IF Secondary(d) THEN 1 ELSE MaxLen
-ItemsOf(d) == IF d.kind = "render" THEN (IF d.lay # 0 THEN ItemsRV ELSE ItemsAll) ELSE ItemsNoK
+\* Full (thorough tier): every nested pair N(f, g) and every shared-partial item in every case; otherwise a sample of
+\* the two dimensions: the alternating HTML/Markdown nestings in the render and call kinds, the shared partial in
+\* two formats with the content placement (paths do not depend on the placement)
+NItems(d) == IF d.lay # 0 THEN {}
+             ELSE IF Full THEN {it \in ItemsN(Fmts, Fmts) : it.f # it.g}
+             ELSE IF d.kind \in {"render", "call"} THEN {It("N", "html", "md"), It("N", "md", "html")} ELSE {}
+YZItems(d) == IF Full THEN ItemsYZ(Fmts) ELSE IF d.pl = "text" THEN ItemsYZ({"txt", "html"}) ELSE {}
+ItemsOf(d) == (IF d.kind = "render" THEN (IF d.lay # 0 THEN ItemsRV ELSE ItemsAll) ELSE ItemsNoK) \cup NItems(d) \cup YZItems(d)
+\* at most one N / Y / Z item in a body: the last one, with only text before it (what has been rendered so far)
+BodyOk(b) == LET sp == {i \in 1..Len(b) : Special(b[i])} IN
+             sp = {} \/ (sp = {Len(b)} /\ \A i \in 1..(Len(b) - 1) : b[i] = It("T", "", ""))
 \* a layout other than the flat one is only interesting when the body refers to another file
 Exportable(d) == (d.kind = "render" /\ d.lay # 0) => Len(d.body) = 1
 
@@ -49,7 +62,7 @@ Init == c = Root
 Next == /\ Mode # "exportonly"
         /\ IF c = Root THEN c' \in {d \in Base : Ok(d) /\ InMode(d)}
            ELSE /\ Len(c.body) < MaxLenOf(c)
-                /\ \E it \in ItemsOf(c) : c' = [c EXCEPT !.body = Append(@, it)]
+                /\ \E it \in ItemsOf(c) : BodyOk(Append(c.body, it)) /\ c' = [c EXCEPT !.body = Append(@, it)]
 
 (* ---- design-level results ---- *)
 \* Each model is evaluated once per state (R, F, W, O = outputs of the reference, of the mechanism with both
@@ -61,9 +74,9 @@ ThRefRelations(vs, R) == HoldsOn(c, LAMBDA nm : R[IdxOf(vs, nm)])
 \* (T2) with the format test in the render fast path and the macro context kept after a tag, the
 \*      mechanism computes the reference output for every variant of every case
 ThFixedMeetsRef(vs, R, F) == All(vs, LAMBDA i : F[i] = R[i])
-\* (T3) the mechanism as written leaves the reference only for the two named causes
-ThAsWrittenDeviatesOnlyIf(vs, R, W) == All(vs, LAMBDA i : W[i] # R[i] => (MismatchedRender(vs[i].fs) \/ ForeignTagMacro(vs[i].fs)))
-\* (T4) the render fix removes its own cause
+\* (T3) the mechanism as written leaves the reference only for the named cause (a mismatched {{ render }})
+ThAsWrittenDeviatesOnlyIf(vs, R, W) == All(vs, LAMBDA i : W[i] # R[i] => MismatchedRender(vs[i].fs))
+\* (T4) without the tag-context fix (the tree before caecd73) but with the render fix, only the tag cause is left
 ThRenderFixLeavesOnlyTag(vs, R, O) == All(vs, LAMBDA i : O[i] # R[i] => ForeignTagMacro(vs[i].fs))
 \* (T5) every byte the reference produces is covered by the escaper transcription
 ThRefDefined(vs, R) == All(vs, LAMBDA i : Defined(R[i]))
@@ -90,7 +103,7 @@ AsWrittenRenderRelations == c.kind = "render" => AsWrittenRelations
 AsWrittenOtherRelations == c.kind # "render" => AsWrittenRelations
 
 (* ---- case export ---- *)
-Bodies(d) == {s \in SeqsUpTo(ItemsOf(d), MaxLenOf(d)) : TRUE}
+Bodies(d) == {s \in SeqsUpTo(ItemsOf(d), MaxLenOf(d)) : BodyOk(s)}
 Space(x) == {e \in UNION {{[d EXCEPT !.body = s] : s \in Bodies(d)} : d \in {d \in Base : Ok(d)}} : Exportable(e)}
 Calib == {Dim("calib", "txt", "text", a, 0, "", FALSE) : a \in TextAtoms}
 \* seeded sample of longer bodies: a multiplicative walk over (base case, item tuple) indexes
